@@ -108,6 +108,8 @@ pub struct Evaluator<'a> {
     /// stream name -> appended values in order (sequential reading)
     streams: BTreeMap<String, Vec<Val>>,
     canons: BTreeMap<String, Vec<Val>>,
+    /// canon name -> peer that canonicalized it
+    canon_peers: BTreeMap<String, String>,
     pub calls: Vec<CallRec>,
     pub canon_recs: Vec<CanonRec>,
     pub stats: RefStats,
@@ -154,6 +156,7 @@ impl<'a> Evaluator<'a> {
             folds: vec![],
             streams: BTreeMap::new(),
             canons: BTreeMap::new(),
+            canon_peers: BTreeMap::new(),
             calls: vec![],
             canon_recs: vec![],
             stats: RefStats::default(),
@@ -382,6 +385,15 @@ impl<'a> Evaluator<'a> {
                         return Status::Error(format!("lens: {}", e));
                     }
                 };
+                // a whole canon stream copied into a scalar or stream becomes one value produced by
+                // the canonicalizing peer (tetraplet: that peer, empty service and function)
+                let v = match src {
+                    Arg::Var { name, lens, length: false } if name.starts_with('#') && lens.is_empty() => {
+                        let peer = self.canon_peers.get(name).cloned().unwrap_or_default();
+                        Val { v: v.v, tets: vec![Tet { peer, service: String::new(), function: String::new(), lens: String::new() }] }
+                    }
+                    _ => v,
+                };
                 if dst.starts_with('$') {
                     self.streams.entry(dst.clone()).or_default().push(v);
                 } else {
@@ -418,6 +430,7 @@ impl<'a> Evaluator<'a> {
                 self.stats.canons += 1;
                 let elems = self.streams.get(src).cloned().unwrap_or_default();
                 self.canons.insert(dst.clone(), elems);
+                self.canon_peers.insert(dst.clone(), p.clone());
                 self.canon_recs.push(CanonRec { peer: p, stream: src.clone(), dst: dst.clone() });
                 Status::Complete
             }
